@@ -21,7 +21,7 @@ EVIDENCE = Path(os.environ.get("VERIF_EVIDENCE_DIR", VERIF / "evidence"))   # ru
 REPLAYS = VERIF / "replays"
 
 sys.path.insert(0, str(REPO / "src"))
-sys.setrecursionlimit(20000)
+sys.setrecursionlimit(100000)
 sys.set_int_max_str_digits(0)
 
 import smoothmath as sm  # noqa: E402
@@ -58,7 +58,8 @@ def run_model(lines: list[str], timeout: float = 300.0) -> list[str]:
         return []
     data = "\n".join(lines) + "\n"
     try:
-        r = subprocess.run([str(DRIVER)], input=data, capture_output=True, text=True, timeout=timeout)
+        r = subprocess.run([str(DRIVER)], input=data, capture_output=True, text=True,
+                           timeout=max(timeout, len(data) / 20000.0))      # large batches get proportionally longer
     except subprocess.TimeoutExpired:
         raise Infra(f"model driver did not answer {len(lines)} requests within {timeout}s")
     out = r.stdout.split("\n")
